@@ -53,7 +53,7 @@ def objective(g, p, N0, Es):
                                 p.astype(np.longdouble) / N0)))
 
 
-STATE = {"rng": None, "tag": ""}
+STATE = {"rng": None, "tag": "", "calls": None}
 
 
 def post_doWF(ctx, args, kwargs, result):
@@ -111,6 +111,8 @@ def post_doWF(ctx, args, kwargs, result):
         ctx.ev("no-better-allocation", worst <= 1e-12 * (abs(base) + 1.0),
                detail=d(gain=worst, move=wit, objective=base))
     ctx.tally("doWF-calls:" + (tag or "direct"))
+    if STATE.get("calls") is not None:
+        STATE["calls"].append({"gains": g.copy(), "Pt": Pt, "N0": N0, "Es": Es})
 
 
 monitors.attach_ensure(WF, "doWF", post_doWF, label="doWF")
@@ -206,6 +208,19 @@ def case_direct(ctx, rng, idx):
                    and abs(mu2 - mu) <= tol + 1e-9 * abs(mu),
                    detail=lambda: {"gains": g, "perm": perm, "p": p, "p_perm": p2,
                                    "mu": mu, "mu_perm": mu2})
+            if n >= 2 and idx % 4 == 0:
+                # the caller re-uses its gains array: refilled in place (a new
+                # realisation in the same buffer) and solved again
+                STATE["tag"] = "same-array-refilled"
+                try:
+                    gb = g.copy()
+                    WF.doWF(gb, Pt, N0, Es)
+                    gb[:] = gb[rng.permutation(n)]
+                    if gb.dtype.kind == "f":
+                        gb *= 10.0 ** rng.uniform(-0.3, 0.3, n)
+                    WF.doWF(gb, Pt, N0, Es)          # (directly after, same object)
+                finally:
+                    STATE["tag"] = ""
             if n >= 2 or Es != 1.0:
                 ctx.sig(n, gclass, int(kact), Es == 1.0, int(np.floor(np.log10(Pt))))
             ctx.tally("active=%s" % ("all" if kact == n else "some-off"))
@@ -226,14 +241,43 @@ def case_insitu(ctx, rng, idx):
          1j * rng.standard_normal((K * nant, K * nant))) / np.sqrt(2)
     bd = BD.BlockDiagonalizer(K, Pu, noise)
     STATE["rng"], STATE["tag"] = rng, "block_diagonalize"
+    STATE["calls"] = []
     monitors.ACTIVE[0] = ctx
     try:
-        ctx.call("matches-reference", bd.block_diagonalize, H,
-                 detail={"K": K, "nant": nant, "Pu": Pu, "noise": noise})
+        okc, _ = ctx.call("matches-reference", bd.block_diagonalize, H,
+                          detail={"K": K, "nant": nant, "Pu": Pu, "noise": noise})
+        calls = STATE["calls"]
+        if okc:
+            # the water-filling problem of this channel, derived independently:
+            # gains = squared singular values of each user's channel restricted to
+            # the null space of the other users (basis independent), noise and
+            # total budget as configured
+            want = []
+            for k in range(K):
+                others = np.vstack([H[j * nant:(j + 1) * nant] for j in range(K) if j != k])
+                _, sv, Vh = np.linalg.svd(others)
+                Nk = Vh.conj().T[:, others.shape[0]:]
+                want.extend(np.linalg.svd(H[k * nant:(k + 1) * nant] @ Nk, compute_uv=False) ** 2)
+            want = np.sort(np.array(want))
+            d = {"K": K, "nant": nant, "Pu": Pu, "noise": noise}
+            ctx.ev("matches-reference", len(calls) == 1, cls="insitu:one-water-filling-call",
+                   detail={**d, "calls": len(calls)})
+            if len(calls) == 1:
+                c = calls[0]
+                got = np.sort(np.asarray(c["gains"], dtype=float))
+                scale = float(np.linalg.norm(H, 2)) ** 2
+                ctx.ev("matches-reference", got.shape == want.shape and
+                       bool(np.all(np.abs(got - want) <= 1e-9 * scale)) and
+                       abs(c["N0"] - noise) <= 1e-12 * noise and abs(c["Es"] - 1.0) == 0.0 and
+                       abs(c["Pt"] - K * Pu) <= 1e-12 * K * Pu,
+                       cls="insitu:problem-handed-to-doWF",
+                       detail={**d, "gains_passed": got, "gains_of_the_channel": want,
+                               "noise_passed": c["N0"], "budget_passed": c["Pt"]})
         ctx.sig("insitu", K, nant, int(np.floor(np.log10(Pu))))
     finally:
         monitors.ACTIVE[0] = None
         STATE["tag"] = ""
+        STATE["calls"] = None
 
 
 GENS = {
